@@ -53,7 +53,7 @@ REQUIRED = dict(
              'guillot:alpha-outside', 'guillot:negative-kappa', 'guillot:reinit-judged', 'reinit:other-grid-same-n',
              'reinit:other-planet', 'reinit:planet-set', 'reinit:other-n', 'reinit:first-again', 'grid:integer-decades', 'array:index', 'array:pressure', 'array:all-equal',
              'rodgers:all-equal', 'nlayers:2', 'nlayers:100', 'grid:simple', 'grid:irregular', 'grid:narrow',
-             'via-forward-model', 'via-setter', 'clone:deepcopy', 'controls:given-as-caller-array', 'npoint:non-positive-pressure-node', 'file:temp_units=kK', 'file:temp_units=mK', 'file:temp_units=deg_C'])
+             'via-forward-model', 'via-setter', 'via-setter:a-few-parts-per-billion', 'clone:deepcopy', 'controls:given-as-caller-array', 'npoint:non-positive-pressure-node', 'file:temp_units=kK', 'file:temp_units=mK', 'file:temp_units=deg_C'])
 
 NLAYERS = list(range(2, 61)) + [100]
 
@@ -400,6 +400,14 @@ def wl_npoint(ctx, rng):
     if rng.random() < (0.5 if orig is None else 0.9):
         name = ['T_surface', 'T_top'][rng.integers(0, 2)] if k == 0 or rng.random() < 0.5 else 'T_point%d' % (rng.integers(0, k) + 1)
         v = float(10 ** rng.uniform(0, 4))
+        if rng.random() < 0.4:
+            # a step of a few parts per billion, as a converged sampler takes: the hottest (coldest) control moves INWARD by
+            # that little, and the profile read next has to stay below (above) it
+            ext = int(np.argmax(temps)) if rng.random() < 0.5 else int(np.argmin(temps))
+            name = 'T_surface' if ext == 0 else ('T_top' if ext == k + 1 else 'T_point%d' % ext)
+            eps_ = float(10 ** rng.uniform(-9, -6))
+            v = float(temps[ext] * (1.0 - eps_)) if temps[ext] == max(temps) else float(temps[ext] * (1.0 + eps_))
+            ctx.observe('via-setter:a-few-parts-per-billion')
         fp[name][3](v)
         if name.startswith('T_point'):
             L.redeclare(np_, {('temperature_points', int(name[7:]) - 1): v})
